@@ -1030,6 +1030,24 @@ theorem C15_compute_regenerates (fr : List (Key × FrameM)) (filt f d m : Nat) (
   simp only [hl, hc, hok, Bool.not_true, Bool.false_eq_true, if_false, hs]
   rfl
 
+/-! ## Aliasing -/
+
+/-- **`frame.copy_from(frame)` is `frame.load()`**: copying a frame onto itself changes no other
+frame and leaves this one loaded with the content it had — for a frame that `VTF.read` has not
+loaded yet that is the content of the file, never a blank image — and doing it again changes nothing.
+(For the code this rests on the history correspondence, which uses a frame as its own source, also
+through `memoryview(frame)`, on lazy and loaded frames.) -/
+theorem C15_copy_from_self (v : Vtf) (k : Key) (fr : FrameM) (h : lookupFrame v.frames k = some fr) :
+    copyFrameOp v k k = updFrame v k FrameM.load ∧
+    fr.load.data = some (match fr.fileData with
+      | some d => d
+      | none => fr.data.getD (blank fr.w fr.h)) ∧
+    fr.load.load = fr.load := by
+  refine ⟨?_, ?_, ?_⟩
+  · simp [copyFrameOp, h]
+  · cases hf : fr.fileData <;> simp [FrameM.load, hf]
+  · cases hf : fr.fileData <;> simp [FrameM.load, hf]
+
 /-! ## Non-vacuity: the hypotheses are satisfiable, and the laws visibly bite -/
 
 example : (⟨200, 100, 50, 129⟩ : Px).valid := by decide
